@@ -13,7 +13,7 @@ open GoZero.Extracted.C10
 theorem extraction_clean : extractionErrors = [] := by decide
 
 /-- `WithWorkers` clamps to 1, the driver's `minWorkers`. -/
-theorem tie_minWorkers : minWorkers = (GoZero.C10.minWorkers : Int) := by decide
+theorem tie_minWorkers : GoZero.Extracted.C10.minWorkers = (GoZero.C10.minWorkers : Int) := by decide
 
 /-- MapReduce = buildSource (generator goroutine) + mapReduceWithPanicChan. -/
 theorem tie_mapReduceShape : mapReduceShape =
@@ -271,62 +271,62 @@ theorem tie_packageVars : packageVars =
 proven equal, for ALL arguments, to the functions the model and the driver use -/
 
 /-- `defaultWorkers` is the 16 of `Spec.defaultWorkersN` (a call without WithWorkers: `Spec.workersOf []`). -/
-theorem tie_defaultWorkers : defaultWorkers = (GoZero.C10.defaultWorkersN : Int) := by decide
+theorem tie_defaultWorkers : GoZero.Extracted.C10.defaultWorkers = (GoZero.C10.defaultWorkersN : Int) := by decide
 
 /-- `WithWorkers(w)` stores `clampWorkers w` — comparison operator, both branches and the constant, for every w. -/
-theorem tie_withWorkers (w : Int) : withWorkers w = (GoZero.C10.clampWorkers w : Int) := by
+theorem tie_withWorkers (w : Int) : GoZero.Extracted.C10.withWorkers w = (GoZero.C10.clampWorkers w : Int) := by
   have hm : GoZero.Extracted.C10.minWorkers = 1 := rfl
-  unfold withWorkers GoZero.C10.clampWorkers GoZero.C10.minWorkersN
+  unfold GoZero.Extracted.C10.withWorkers GoZero.C10.clampWorkers GoZero.C10.minWorkersN
   rw [hm]
   by_cases h : w < 1 <;> simp [h] <;> omega
 
 /-- the dispatcher goes on iff `failed = 0` (`stepDisp` .loop), and a recovered mapper panic adds exactly 1 (`.recovered`). -/
-theorem tie_dispatcherLoopCond (f : Nat) : dispatcherLoopCond f = decide (f = 0) := by
-  unfold dispatcherLoopCond
+theorem tie_dispatcherLoopCond (f : Nat) : GoZero.Extracted.C10.dispatcherLoopCond f = decide (f = 0) := by
+  unfold GoZero.Extracted.C10.dispatcherLoopCond
   cases f <;> simp <;> omega
 
 theorem tie_dispatcherLoop_is_model (c : GoZero.C10.Cfg) (s : GoZero.C10.St) (h : s.dpc = .loop) :
-    GoZero.C10.stepDisp c s = some { s with dpc := if dispatcherLoopCond s.failed then .sel else .wait } := by
+    GoZero.C10.stepDisp c s = some { s with dpc := if GoZero.Extracted.C10.dispatcherLoopCond s.failed then .sel else .wait } := by
   unfold GoZero.C10.stepDisp
   rw [h, tie_dispatcherLoopCond]
   by_cases h0 : s.failed = 0 <;> simp [h0]
 
-theorem tie_failedDelta : failedDelta = 1 := by decide
+theorem tie_failedDelta : GoZero.Extracted.C10.failedDelta = 1 := by decide
 
 /-- `AtomicError.Set` / `Load` are `Spec.aeSet` / `Spec.aeLoad` for every content and argument. -/
-theorem tie_atomicErrorSet (cur err : Option Nat) : atomicErrorSet cur err = GoZero.C10.aeSet cur err := rfl
-theorem tie_atomicErrorLoad (cur : Option Nat) : atomicErrorLoad cur = GoZero.C10.aeLoad cur := rfl
+theorem tie_atomicErrorSet (cur err : Option Nat) : GoZero.Extracted.C10.atomicErrorSet cur err = GoZero.C10.aeSet cur err := rfl
+theorem tie_atomicErrorLoad (cur : Option Nat) : GoZero.Extracted.C10.atomicErrorLoad cur = GoZero.C10.aeLoad cur := rfl
 
 /-- `cancel(err)` records err, or ErrCancelWithNil for nil (`Spec.cancelRecords`; model: `retErr := some (cancelErr e)`,
 `Props4.cancel_records_an_error`). -/
-theorem tie_cancelRecords (err : Option Nat) : cancelRecords err = GoZero.C10.cancelRecords err := by
+theorem tie_cancelRecords (err : Option Nat) : GoZero.Extracted.C10.cancelRecords err = GoZero.C10.cancelRecords err := by
   cases err <;> rfl
 
 /-- the caller's output branch: recorded error first, then the value, else ErrReduceNoOutput (`Spec.callerOutput`;
 model: `Props4.callerOutput_is_model`).  The order of the three tests is part of the equality. -/
 theorem tie_callerOutput (e : Option Nat) (ok : Bool) (v : Nat) :
-    callerOutput e ok v = GoZero.C10.callerOutput e ok v := by
+    GoZero.Extracted.C10.callerOutput e ok v = GoZero.C10.callerOutput e ok v := by
   cases e <;> cases ok <;> rfl
 
 /-- the caller's context case cancels with and returns DeadlineExceeded (`stepCaller` .cancelEnter / .cdrain). -/
-theorem tie_callerCtxCase : callerCtxCase =
+theorem tie_callerCtxCase : GoZero.Extracted.C10.callerCtxCase =
     (some (GoZero.C10.encErr .deadline), some (GoZero.C10.encErr .deadline)) := by decide
 
 /-- MapReduceVoid maps ErrReduceNoOutput (and only it) to nil (`Spec.voidReturn`, driver `showRes`). -/
-theorem tie_voidReturn (err : Option Nat) : voidReturn err = GoZero.C10.voidReturn err := by
+theorem tie_voidReturn (err : Option Nat) : GoZero.Extracted.C10.voidReturn err = GoZero.C10.voidReturn err := by
   cases err <;> rfl
 
 /-- Finish / FinishVoid: return at once iff there is no function; pass WithWorkers(len(fns)) (`Spec.finishCfg`,
 `Spec.forEachCfg`); Finish's mapper cancels with the function's error iff it is not nil (`Spec.fnScript`). -/
-theorem tie_finishEmptyGuard (n : Nat) : finishEmptyGuard n = decide (n = 0) := by
-  unfold finishEmptyGuard; cases n <;> simp <;> omega
-theorem tie_finishVoidEmptyGuard (n : Nat) : finishVoidEmptyGuard n = decide (n = 0) := by
-  unfold finishVoidEmptyGuard; cases n <;> simp <;> omega
-theorem tie_finishWorkers (n : Nat) : withWorkers (finishWorkersArg n) = ((GoZero.C10.finishCfg (List.replicate n .ok)).workers : Int) := by
-  simp [finishWorkersArg, tie_withWorkers, GoZero.C10.finishCfg]
-theorem tie_finishVoidWorkers (n : Nat) : withWorkers (finishVoidWorkersArg n) = (GoZero.C10.clampWorkers n : Int) := by
-  simp [finishVoidWorkersArg, tie_withWorkers]
-theorem tie_finishMapperCancel (err : Option Nat) : finishMapperCancel err = err.map some := by
+theorem tie_finishEmptyGuard (n : Nat) : GoZero.Extracted.C10.finishEmptyGuard n = decide (n = 0) := by
+  unfold GoZero.Extracted.C10.finishEmptyGuard; cases n <;> simp <;> omega
+theorem tie_finishVoidEmptyGuard (n : Nat) : GoZero.Extracted.C10.finishVoidEmptyGuard n = decide (n = 0) := by
+  unfold GoZero.Extracted.C10.finishVoidEmptyGuard; cases n <;> simp <;> omega
+theorem tie_finishWorkers (n : Nat) : GoZero.Extracted.C10.withWorkers (GoZero.Extracted.C10.finishWorkersArg n) = ((GoZero.C10.finishCfg (List.replicate n .ok)).workers : Int) := by
+  simp [GoZero.Extracted.C10.finishWorkersArg, tie_withWorkers, GoZero.C10.finishCfg]
+theorem tie_finishVoidWorkers (n : Nat) : GoZero.Extracted.C10.withWorkers (GoZero.Extracted.C10.finishVoidWorkersArg n) = (GoZero.C10.clampWorkers n : Int) := by
+  simp [GoZero.Extracted.C10.finishVoidWorkersArg, tie_withWorkers]
+theorem tie_finishMapperCancel (err : Option Nat) : GoZero.Extracted.C10.finishMapperCancel err = err.map some := by
   cases err <;> rfl
 
 end GoZero.C10.Tie
